@@ -3,7 +3,7 @@ use std::fmt::Write as _;
 use std::time::{Duration, Instant};
 
 use crate::exec::{exec_run, exec_run_opt, reset_library, EvalRec};
-use crate::gen::{draw_swarm, gen_pool, gen_run, GenStats, Leap, ERA_NAMES};
+use crate::gen::{draw_swarm, gen_pool, gen_run, gen_stress_run, GenStats, Leap, ERA_NAMES};
 use crate::query::*;
 use crate::rng::{fnv, mix, Rng, FNV0};
 use crate::sched::{install_hooks, EV_NAMES};
@@ -169,6 +169,7 @@ pub fn explore(args: &[String]) -> i32 {
   let report_key: Option<String> = arg(args, "--report-key").map(|s| s.to_string());
   let report_run: Option<u64> = arg(args, "--report-run").map(|s| s.parse::<u64>().unwrap_or(0));
   let reset_pct = arg_u64(args, "--reset-pct", 75);
+  let stress = flag(args, "--stress");
   let sample_fresh = arg_u64(args, "--sample-fresh", 48) as usize;
   let mut fresh_sample: Vec<(String, char, u64, u64)> = Vec::new();
   let mut fresh_seen = 0u64;
@@ -299,7 +300,7 @@ pub fn explore(args: &[String]) -> i32 {
     let mut rng = Rng::new(run_seed);
     let sw = draw_swarm(&mut rng, &leap, conc);
     let reset = run_texts.is_empty() || rng.below(100) < reset_pct;
-    let script = gen_run(&mut rng, &sw, &pool, &leap, reset, &mut gs);
+    let script = if stress { gen_stress_run(&mut rng, &leap, reset) } else { gen_run(&mut rng, &sw, &pool, &leap, reset, &mut gs) };
     if reset && !pending.is_empty() {
       cold_phase!();
       if stop_worker || violations.len() >= 8 {
@@ -319,7 +320,7 @@ pub fn explore(args: &[String]) -> i32 {
     let out_run = exec_run(&script, false, false, watchdog);
     let res = &out_run.result;
     let run_index = run_texts.len();
-    run_texts.push(format!("# seed={} worker={} run={} run_seed={} era={} policy={}\n{}", seed, worker, r, run_seed, ERA_NAMES[sw.era as usize], sw.policy.name(), script.to_text(Some(&res.trace))));
+    run_texts.push(format!("# seed={} worker={} run={} run_seed={} era={} policy={}\n{}", seed, worker, r, run_seed, ERA_NAMES[sw.era as usize], script.policy.name(), script.to_text(if stress { None } else { Some(&res.trace) })));
     runs += 1;
     if res.free_run {
       free_runs += 1;
@@ -334,8 +335,8 @@ pub fn explore(args: &[String]) -> i32 {
       break;
     }
     // statistics
-    *by_policy.entry(sw.policy.name()).or_insert(0) += 1;
-    *by_threads.entry(format!("{}", sw.threads)).or_insert(0) += 1;
+    *by_policy.entry(script.policy.name()).or_insert(0) += 1;
+    *by_threads.entry(format!("{}", script.threads.len())).or_insert(0) += 1;
     *by_era.entry(ERA_NAMES[sw.era as usize].to_string()).or_insert(0) += 1;
     steps += res.stats.steps;
     alloc_yields += res.stats.alloc_yields;
